@@ -61,8 +61,8 @@ def _inheritedDocsources(obj: model.Documentable) -> Iterator[model.Documentable
     name = obj.name
     for interface in obj.parent.allImplementedInterfaces:
         io = obj.system.objForFullName(interface)
-        if io is not None:
-            assert isinstance(io, ZopeInterfaceClass)
+        # What is declared as an interface might be something else (a function for instance).
+        if isinstance(io, ZopeInterfaceClass):
             for io2 in io.mro():
                 if name in io2.contents:
                     yield io2.contents[name]
